@@ -375,6 +375,11 @@ func (k *c14) RunCase(c *core.Ctx, i int) {
 		input := sc.files[sc.main]
 		why, key := "", ""
 		switch {
+		case res.Class == "starterror":
+			// the harness could not start the process (e.g. the scratch directory is not
+			// reachable for the dropped uid in this environment): nothing was observed
+			c.Inconclusive(i, fmt.Sprintf("%s %s: could not start: %v", sc.kind, cmd.key, res.Err))
+			continue
 		case res.Class == "timeout":
 			// must reproduce three times to count as a hang
 			hangs := 1
